@@ -528,6 +528,13 @@ class EvolveAppTask(BaseEvolutionTask):
                 pre_migration_plan = migration_executor.migration_plan(
                     pre_migration_targets)
 
+                # Temporarily consider these as applied, so that we can
+                # compute the post-stage plan below. They must not stay in
+                # this list, as execute_tasks() records everything in it as
+                # applied before running anything.
+                orig_extra_applied_migrations = \
+                    extra_applied_migrations.clone()
+
                 excluded_targets.update(pre_migration_targets)
                 extra_applied_migrations.add_migration_targets(
                     pre_migration_targets)
@@ -556,6 +563,10 @@ class EvolveAppTask(BaseEvolutionTask):
                         for plan_item in post_migration_plan
                         if plan_item not in pre_migration_plan_set
                     ]
+
+            if pre_migration_targets:
+                migration_loader.extra_applied_migrations = \
+                    orig_extra_applied_migrations
         else:
             # We may not be migrating, but we still want this state
             # for signal emissions, so create it now.
